@@ -8,7 +8,7 @@ verus! {
 //@@ trusted std::io::Write stand-in: write_all appends the slice or fails (the writer of `to_vec` is a Vec<u8>)
 //@@ trusted iN/uN::to_be_bytes routed to wrappers with the big-endian spec (R14); `v as u8` / `v as u32` casts are Verus' own (two's complement truncation)
 //@@ trusted Serializer<W> / SizeSerializer: only the fields these functions touch are kept (writer, is_array_elem / is_array_element); methods of `impl ser::Serializer for &mut …` are re-homed (by-value `self` is `&mut`)
-//@@ trusted f32/f64 are not covered here (Kani harnesses rt_f32 / rt_f64 of the codec crate cover them outside arrays)
+//@@ trusted f32/f64::to_be_bytes are the big-endian octets of the IEEE 754 bit pattern f32_bits / f64_bits (uninterpreted; the Kani harnesses rt_f32 / rt_f64 decide the bit-exact round trip outside arrays)
 
 pub open spec fn be32(x: u32) -> Seq<u8> { seq![(x >> 24) as u8, ((x >> 16) & 0xff) as u8, ((x >> 8) & 0xff) as u8, (x & 0xff) as u8] }
 //@@ include fixspec.rs
@@ -17,6 +17,13 @@ pub open spec fn be32(x: u32) -> Seq<u8> { seq![(x >> 24) as u8, ((x >> 16) & 0x
 #[verifier::external_body] pub fn i32_to_be_bytes(x: i32) -> (r: [u8; 4]) ensures r@ == be32(x as u32) { x.to_be_bytes() }
 #[verifier::external_body] pub fn u32_to_be_bytes(x: u32) -> (r: [u8; 4]) ensures r@ == be32(x) { x.to_be_bytes() }
 #[verifier::external_body] pub fn u64_to_be_bytes(x: u64) -> (r: [u8; 8]) ensures r@ == be64(x) { x.to_be_bytes() }
+/// the IEEE 754 bit pattern of a float (f32::to_bits: uninterpreted here, as in unit READERS; the Kani harnesses rt_f32 / rt_f64 decide the bit-exact round trip outside arrays)
+pub uninterp spec fn f32_bits(x: f32) -> u32;
+pub uninterp spec fn f64_bits(x: f64) -> u64;
+#[verifier::external_body] pub fn f32_to_be_bytes(x: f32) -> (r: [u8; 4]) ensures r@ == be32(f32_bits(x)) { x.to_be_bytes() }
+#[verifier::external_body] pub fn f64_to_be_bytes(x: f64) -> (r: [u8; 8]) ensures r@ == be64(f64_bits(x)) { x.to_be_bytes() }
+pub open spec fn enc_f32(v: f32, e: IsArrayElement) -> Seq<u8> { fixed(0x72u8, be32(f32_bits(v)), e) }
+pub open spec fn enc_f64(v: f64, e: IsArrayElement) -> Seq<u8> { fixed(0x82u8, be64(f64_bits(v)), e) }
 
 #[verifier::external_body]
 pub struct IoError { _p: u8 }
@@ -134,6 +141,32 @@ impl Serializer {
         r is Ok ==> added(*old(self), *final(self)) =~= enc_u64(v, old(self).is_array_elem),      // [C05.u64.encoding] [C03.rt.encoder-premise] AMQP 1.0 part 1, 1.6: constructor 0x80 + 8 data octet(s) big-endian (ulong0 0x44 / smallulong 0x53 when they fit); inside an array the constructor once, then data only
 //@@ end
 
+//@@ fn file=serde_amqp/src/ser.rs impl=`~ser::Serializer for &'a mut Serializer<W>` name=serialize_f32
+//@@ selfmut
+//@@ qmark
+//@@ ret Result<(), Error>
+//@@ subst `.map_err(Into::into)` => `.map_err(|e: IoError| -> (o: Error) { Error::Io(e) })` rule=optional-R17
+//@@ subst `v.to_be_bytes()` => `f32_to_be_bytes(v)` rule=R14
+//@@ spec
+    ensures
+        final(self).is_array_elem == old(self).is_array_elem,
+        r is Ok ==> appended(*old(self), *final(self)),
+        r is Ok ==> added(*old(self), *final(self)) =~= enc_f32(v, old(self).is_array_elem),      // [C05.float.encoding] [C03.rt.encoder-premise] AMQP 1.0 part 1, 1.6: constructor 0x72 + the 4 octets of the IEEE 754 binary32 pattern, big-endian; inside an array the constructor once, then data only
+//@@ end
+
+//@@ fn file=serde_amqp/src/ser.rs impl=`~ser::Serializer for &'a mut Serializer<W>` name=serialize_f64
+//@@ selfmut
+//@@ qmark
+//@@ ret Result<(), Error>
+//@@ subst `.map_err(Into::into)` => `.map_err(|e: IoError| -> (o: Error) { Error::Io(e) })` rule=optional-R17
+//@@ subst `v.to_be_bytes()` => `f64_to_be_bytes(v)` rule=R14
+//@@ spec
+    ensures
+        final(self).is_array_elem == old(self).is_array_elem,
+        r is Ok ==> appended(*old(self), *final(self)),
+        r is Ok ==> added(*old(self), *final(self)) =~= enc_f64(v, old(self).is_array_elem),      // [C05.double.encoding] [C03.rt.encoder-premise] constructor 0x82 + the 8 octets of the IEEE 754 binary64 pattern, big-endian; inside an array the constructor once, then data only
+//@@ end
+
 //@@ fn file=serde_amqp/src/ser.rs impl=`~ser::Serializer for &'a mut Serializer<W>` name=serialize_char
 //@@ selfmut
 //@@ qmark
@@ -211,6 +244,34 @@ impl SizeSerializer {
     ensures
         final(self).is_array_element == old(self).is_array_element,
         r is Ok && r->Ok_0 == enc_u64(v, old(self).is_array_element).len(),      // [C20.size.u64] serialized_size == the number of octets the encoder writes, in every position (plain, first / later array element)
+//@@ end
+
+//@@ fn file=serde_amqp/src/size_ser.rs impl=`~ser::Serializer for &'a mut SizeSerializer` name=serialize_f32 as=size_f32
+//@@ selfmut
+//@@ ret Result<usize, Error>
+//@@ spec
+    ensures
+        final(self).is_array_element == old(self).is_array_element,
+        r is Ok && r->Ok_0 == enc_f32(_v, old(self).is_array_element).len(),      // [C20.size.float] serialized_size == the number of octets the encoder writes, in every position
+//@@ end
+
+//@@ fn file=serde_amqp/src/size_ser.rs impl=`~ser::Serializer for &'a mut SizeSerializer` name=serialize_f64 as=size_f64
+//@@ selfmut
+//@@ ret Result<usize, Error>
+//@@ spec
+    ensures
+        final(self).is_array_element == old(self).is_array_element,
+        r is Ok && r->Ok_0 == enc_f64(_v, old(self).is_array_element).len(),      // [C20.size.double]
+//@@ end
+
+//@@ fn file=serde_amqp/src/size_ser.rs impl=`~ser::Serializer for &'a mut SizeSerializer` name=serialize_unit_variant as=size_unit_variant
+//@@ selfmut
+//@@ subst `self.serialize_u32(variant_index)` => `self.size_u32(variant_index)` rule=R2
+//@@ ret Result<usize, Error>
+//@@ spec
+    ensures
+        final(self).is_array_element == old(self).is_array_element,
+        r is Ok && r->Ok_0 == enc_u32(variant_index, old(self).is_array_element).len(),      // [C20.size.unit-variant] a unit variant is its index written as a uint (ser.rs serialize_unit_variant: unit SERENTRY): sized as that uint
 //@@ end
 
 //@@ fn file=serde_amqp/src/size_ser.rs impl=`~ser::Serializer for &'a mut SizeSerializer` name=serialize_char as=size_char
